@@ -150,9 +150,10 @@ def yq(s):
 class Gen:
     """Random valid package generator. All randomness from rng."""
 
-    def __init__(self, rng, namespace="Ns", allow_generics=True, allow_strings_in_arrays=False, allow_time_in_arrays=False,
-                 max_depth=3, n_records=4, n_enums=3, n_aliases=3, n_protocols=3, steps=(2, 5)):
+    def __init__(self, rng, namespace="Ns", allow_generics=True, allow_strings_in_arrays=True, allow_time_in_arrays=True,
+                 max_depth=3, n_records=4, n_enums=3, n_aliases=3, n_protocols=3, steps=(2, 5), rich_array_elems=True):
         self.rng = rng
+        self.rich_array_elems = rich_array_elems
         self.pkg = Package(namespace)
         self.max_depth = max_depth
         self.allow_generics = allow_generics
@@ -325,8 +326,8 @@ class Gen:
         rng = self.rng
         r = rng.random()
         if r < 0.55:
-            # arrays of date/time/datetime cannot be written by the generated Python NDJSON writer
-            # ("Expected dtype datetime64, got datetime64[ns]"; recorded under C02): kept out of the random packages
+            # (arrays of date/time/datetime could not be written by the generated Python NDJSON writer before the /repo fix of the
+            # converter dtypes; they are generated by default now)
             p = rng.choice([q for q in PRIMS if (q != "string" or self.allow_strings_in_arrays)
                             and (self.allow_time_in_arrays or q not in ("date", "time", "datetime"))])
             return prim(p)
@@ -337,10 +338,18 @@ class Gen:
         if r < 0.85:
             def plain(f):
                 return ((f.kind == "prim" and f.p not in ("string",)) or f.kind == "enum" or
-                        (f.kind in ("fixvec", "fixarr") and f.e.kind == "prim" and f.e.p not in ("string", "date", "time", "datetime")))
+                        (f.kind in ("fixvec", "fixarr") and f.e.kind == "prim" and f.e.p not in ("string", "date", "time", "datetime")) or
+                        (f.kind == "opt" and f.e.kind == "prim" and f.e.p not in ("string", "date", "time", "datetime")))
             recs = [t for t in self.pkg.named if t.kind == "rec" and all(plain(f) for _, f in t.fields)]
             if recs:
                 return rng.choice(recs)
+        if r < 0.93 and self.rich_array_elems:
+            # elements that are not scalars: optionals and vectors of numbers (object arrays in Python)
+            if rng.random() < 0.5:
+                p = prim(rng.choice(["int32", "float64", "uint8", "int64", "bool"]))
+                return T("opt", p.spell + "?", e=p)
+            p = prim(rng.choice(["int32", "float64", "uint8", "int64"]))      # bool*: the C08 finding cpp-bool-sequence
+            return T("vec", p.spell + "*", e=p)
         return prim(rng.choice(["int32", "float32", "uint8", "complexfloat32", "float64"]))
 
     def g_type(self, depth):
@@ -363,6 +372,8 @@ class Gen:
             for i in range(np_):
                 if i in arrp:
                     a = self.array_elem(depth - 1)
+                    if a.kind in ("opt", "vec") and (i in optp or a.kind == "vec"):
+                        a = prim(rng.choice(["int32", "float32", "uint8", "float64"]))   # `T?` of an optional is invalid; keep generic arguments plain
                 else:
                     a = self.not_bool(self.nameable(self.g_type(depth - 1)))
                     if i in optp and a.kind in ("opt", "union"):
